@@ -87,6 +87,36 @@ def obligations(ctx, pid):
                               f"dataclass fields of {cq} are {fields}, specified {want} (dataclasses.asdict / generated methods depend on them)",
                               key=f"E0.fields:{cq}:{','.join(fields)}"))
     obs.append(Ob("E0.hierarchy", "E0.hierarchy", f"{nh} classes", "ok", "declared bases / dataclass fields agree with the specification (violations listed separately)"))
+    # ---- class-level attributes that specified functions read (hasattr / getattr / attribute access) but no specification declares
+    read_names = set()
+    for q in specified:
+        fi = P.functions.get(q)
+        if fi is None:
+            continue
+        for n in ast.walk(fi.node):
+            if isinstance(n, ast.Attribute):
+                read_names.add(n.attr)
+            elif isinstance(n, ast.Call) and isinstance(n.func, ast.Name) and n.func.id in ("getattr", "hasattr") and len(n.args) >= 2 \
+                    and isinstance(n.args[1], ast.Constant) and isinstance(n.args[1].value, str):
+                read_names.add(n.args[1].value)
+    declared = {}
+    for rm in K.ref_modules:
+        for cname, fields in rm.class_fields.items():
+            declared[rm.target + "." + cname] = set(fields)
+    nca = 0
+    for cq in sorted(classes):
+        ci = P.classes[cq]
+        for c in P.mro(ci) + P.subclasses(ci, strict=True):
+            for name in c.class_attrs:
+                nca += 1
+                if name in declared.get(c.qualname, set()) or name.startswith("__"):
+                    continue
+                if name in read_names:
+                    obs.append(Ob(f"E0.class-attr:{c.qualname}.{name}", "E0.class-attr", f"{c.module.relpath}:{c.node.lineno} {c.qualname}", "violation",
+                                  f"class-level attribute {c.qualname}.{name} is not part of the specification but `{name}` is read "
+                                  f"(attribute access / hasattr / getattr) by functions specified for this property: every instance now has it",
+                                  key=f"E0.class-attr:{c.qualname}.{name}"))
+    obs.append(Ob("E0.class-attr", "E0.class-attr", f"{len(classes)} classes", "ok", f"{nca} class-level attributes checked against the names the specified functions read"))
     # ---- attribute hooks
     bad = []
     for cq in sorted(classes):
